@@ -7,6 +7,7 @@ import EchVerif.Resolve.Targets
 import EchVerif.Resolve.Resolve
 import EchVerif.Dial.Config
 import EchVerif.Ctx.Lts
+import EchVerif.Dial.Lts
 import EchVerif.Publish
 import EchVerif.Transport
 /-
@@ -408,6 +409,24 @@ def dialOp (toks : List String) : Option String :=
   | ["ctx-trace", tr] => do
     let obs ← (tr.splitOn ",").mapM readObs
     some (if Ctx.accepts obs then "accept" else "reject")
+  | ["dial-trace", nw, script, tr] => do
+    let nW ← nw.toNat?
+    let sc ← (script.splitOn ",").mapM fun (t : String) => match t with
+      | "ok" => some DialLts.Script.ok | "fail" => some .fail
+      | "refuse" => some .refuse | "rerr" => some .resolveErr | _ => none
+    let readDObs : String → Option DialLts.Obs := fun t => match t.splitOn ":" with
+      | ["cancel"] => some .cancel
+      | ["start", k, l] => do some (.start (← k.toNat?) (l = "1"))
+      | ["finish", k, o] => do some (.finish (← k.toNat?) (o = "1"))
+      | ["close", k] => do some (.close (← k.toNat?))
+      | ["ret-conn", k] => do some (.retConn (← k.toNat?))
+      | ["ret-ctx"] => some .retCtx
+      | ["ret-errs", ks] => do some (.retErrs (← (if ks = "" then [] else ks.splitOn "/").mapM String.toNat?))
+      | _ => none
+    let obs ← (if tr = "-" then [] else tr.splitOn ",").mapM readDObs
+    let n := DialLts.acceptsUpTo sc nW obs
+    some (if n ≠ obs.length then s!"reject-at {n}"
+      else if DialLts.acceptsQuiescent sc nW obs then "accept" else "reject-not-quiescent")
   | ["dial-cfg", req, pn, sn, cech, targets, outs] => do
     let d : Dial.Dialer := ⟨req = "1", ← unhex pn⟩
     let caller : Dial.Cfg := ⟨← unhex sn, ← DT.readEch cech⟩
